@@ -65,6 +65,8 @@ type Chain struct {
 	OnStoreReverted func(RevertEvent)
 
 	Stats map[string]int
+	// NoStaleEphemeralProofs keeps in-block parents free of attached Merkle proofs.
+	NoStaleEphemeralProofs bool
 	// NoLegacyEphemeralSF disables spends of ephemeral siafund parents below the
 	// ephemeral-output fix height (their claimed ClaimStart is not checked by
 	// consensus in that window; C01 excludes it by its quantifier).
